@@ -114,9 +114,8 @@ def rand_case(rng):
 
 
 def gen_cases(rng, n):
-    # the exhaustive part is the same on every run; n counts the random part
-    tier_universe = 16
-    return exhaustive(tier_universe, None) + [rand_case(rng) for _ in range(n)]
+    # the exhaustive part (18 769 cases) is the same on every run; n counts the random part
+    return exhaustive(16, None) + [rand_case(rng) for _ in range(n)]
 
 
 # ---------------------------------------------------------------- oracle (independent statement of the property)
@@ -195,7 +194,7 @@ def kind(c, o):
 
 
 def run(res, tier):
-    res.rule = ("exhaustive: every list of one range and every ordered pair of ranges over 0..5 (quick) / 0..15 (thorough), "
+    res.rule = ("exhaustive: every list of one range and every ordered pair of ranges over 0..15, "
                 "each queried on the whole universe +-1; random: lists of 1..10 values/ranges over 0..15 or over the 16-bit port "
                 "space (boundaries 0, 65535, range ends +-1 queried), 8% lenient spellings (+7, 0--0), 42% with one token "
                 "broken (reversed, > 65535, signs, letters, double dash); a case is non-trivial when the list was accepted "
